@@ -18,7 +18,7 @@ TAGS = ["foo", "bar", "work", "Work", "work2", "home_2", "a1", "ox", "o", "zz9"]
 KEYS = ["due", "kA", "kB", "p", "status", "foo"]
 INT_VALUES = ["0", "5x", "10", "42", "100", "007", "12abc", "25"]
 DATE_VALUES = ["2024-01-01", "2031-03-14", "2031-03-13", "2031-03-15", "2024-1-1", "20240101", "2025-12-31"]
-STR_VALUES = ["Done", "done", "foo", "v1", "M_Th", "a1", "fo"]
+STR_VALUES = ["Done", "done", "foo", "v1", "M_Th", "a1", "fo", "1_0", "4_2"]
 BODY_WORDS = ["foo", "bar", "Foo", "BAR", "quick", "lazy", "Dog", "x9", "the", "zz", "50%", "a_b", "axb", "a\\b", "100%_done", "ab", "a%b", "Some", "note_1", "noteX1", "50", "5000", "dog's", 'say"hi"', "_x", "x_", "(foo)", "foo.bar", "o", "x", "due", "none"]
 DESC_WORDS = ["foo", "bar", "Foo", "BAR", "quick", "Dog", "dog", "x9", "zz", "50", "a_b", "axb", "ab", "note_1", "notex1", "o", "x", "done", "fo"]
 DAY_OFFSETS = [0, 0, -1, 1, -2, -7, 7, -10, 10, -13, -14, -28, -30, -31, 31, -59, -365, -366, -400, 12, 29]
